@@ -52,6 +52,14 @@ use super::graph::{Vertex as GraphVertexTrait, Edge as GraphEdgeTrait}; // index
 proof fn vf_canary_il() ensures false { /* padding: tools/verdict.py compares rustc byte offsets with Python character offsets; non-ASCII characters in shared files shift spans by a few bytes, this keeps the shifted span inside the canary ........................................................................ */ }
 } // mod il
 
+pub mod translator {
+use super::*;
+use super::il::*;
+use vstd::std_specs::iter::IteratorSpec;
+//@ include units/C15/blockify.rs
+proof fn vf_canary_translator() ensures false { /* padding: see vf_canary_root ................................................................................................................................................................................................ */ }
+} // mod translator
+
 proof fn vf_canary_root() ensures false { /* padding: tools/verdict.py compares rustc byte offsets with Python character offsets; non-ASCII characters in shared files shift spans by a few bytes, this keeps the shifted span inside the canary ........................................................................ */ }
 
 } // verus!
